@@ -26,6 +26,20 @@ func monC07(h *Hist, o *TxnObs) {
 		h.V("C07", "cache-"+m.Kind+":"+m.Type, m.String(), o)
 	}
 	// second oracle
+	h.rereadTouched(o, "C07", func(sig, detail string) { h.V("C07", sig, detail, o) })
+	// the probes themselves produced hook events: drop them
+	h.Obs.ResetTxn()
+	h.Obs.TakeMismatches()
+}
+
+// rereadTouched re-reads every key the transaction touched through a fresh state context WITH the block cache (as the
+// next transaction would) and straight from the trie, and reports disagreements. For a failed call this is the
+// "no trace left" check: whatever it wrote must be invisible to later reads.
+func (h *Hist) rereadTouched(o *TxnObs, prop string, report func(sig, detail string)) {
+	r := h.Runs[prop]
+	if r == nil {
+		return
+	}
 	seen := map[string]bool{}
 	for _, op := range o.Ops {
 		if seen[op.Key] {
@@ -39,22 +53,21 @@ func monC07(h *Hist, o *TxnObs) {
 		mk := func() util.MPTSerializable { return reflect.New(ki.Type.Elem()).Interface().(util.MPTSerializable) }
 		probe := &transaction.Transaction{}
 		probe.Hash = o.Txn.Hash
-		// with cache: a transaction cache on top of the block cache, as the next txn would see it
 		cached := chain.CreateTxnMPT(h.BC.State, statecache.NewTransactionCache(h.BC.Cache))
 		sc1 := h.W.Chain.NewStateContext(h.BC.B, cached, probe, nil)
 		v1 := mk()
 		e1 := sc1.GetTrieNode(op.Key, v1)
-		// without cache: straight from the trie
 		raw, e2 := h.BC.State.GetNodeValueRaw(util.Path(ki.Path))
 		r.Count("reread_checks", 1)
-		r.Eval(1)
+		if prop == "C07" {
+			r.Eval(1)
+		}
 		switch {
 		case e1 != nil && e2 != nil:
-			// both absent: fine
 		case e1 == nil && e2 != nil:
-			h.V("C07", "cache-serves-absent-key:"+ki.Type.String(), fmt.Sprintf("key %q readable through the cache but absent in the trie after %s (%s)", op.Key, o.Call.Name, o.Outcome), o)
+			report("cache-serves-absent-key:"+ki.Type.String(), fmt.Sprintf("key %q readable through the cache but absent in the trie after %s (%s)", op.Key, o.Call.Name, o.Outcome))
 		case e1 != nil && e2 == nil:
-			h.V("C07", "cache-hides-present-key:"+ki.Type.String(), fmt.Sprintf("key %q present in the trie but unreadable through the cache (%v) after %s (%s)", op.Key, e1, o.Call.Name, o.Outcome), o)
+			report("cache-hides-present-key:"+ki.Type.String(), fmt.Sprintf("key %q present in the trie but unreadable through the cache (%v) after %s (%s)", op.Key, e1, o.Call.Name, o.Outcome))
 		default:
 			b1, err := v1.MarshalMsg(nil)
 			v2 := mk()
@@ -62,13 +75,14 @@ func monC07(h *Hist, o *TxnObs) {
 			if err == nil && err2 == nil {
 				b2, _ := v2.MarshalMsg(nil)
 				if !bytes.Equal(b1, b2) {
-					h.V("C07", "cache-differs-after-txn:"+ki.Type.String(), fmt.Sprintf("key %q: cached read %x != trie %x after %s (%s)", op.Key, trunc(string(b1), 200), trunc(string(b2), 200), o.Call.Name, o.Outcome), o)
+					report("cache-differs-after-txn:"+ki.Type.String(), fmt.Sprintf("key %q: cached read %x != trie %x after %s (%s)", op.Key, trunc(string(b1), 200), trunc(string(b2), 200), o.Call.Name, o.Outcome))
 				}
 			}
 		}
-		r.Distinct(ki.Type.String() + "|" + o.Outcome)
+		if prop == "C07" {
+			r.Distinct(ki.Type.String() + "|" + o.Outcome)
+		}
 	}
-	// the probes themselves produced hook events: drop them
 	h.Obs.ResetTxn()
 	h.Obs.TakeMismatches()
 }
